@@ -1,13 +1,20 @@
 (* C04: common-prefix search returns exactly the keys that are prefixes of the query (shortest first, with
    lookup's ids, text = the prefix of q), then false forever; q is never read at or beyond |q|
    (that would be Fault OobQuery, excluded by "= Ok ..."). Iterator and callback entry points. *)
-From X Require Import Base Arr Dac Trie Spec Wf IfaceQuery All Examples ExampleFacts.
+From X Require Import Builder IfaceBuild Base Arr Dac Trie Spec Wf IfaceQuery All AllBuild Examples ExampleFacts.
 Local Open Scope N_scope.
 
 Theorem C04_prefix_search : forall v L P K, wf_for v L P K -> forall q, bytes_ok q = true ->
   (forall n, pfx_calls P (mk_prefix q) n = Ok (abs_calls (with_ids P (spec_prefixes K q)) n)) /\
   prefix_search P q = Ok (with_ids P (spec_prefixes K q)).
 Proof. exact prefix_thm. Qed.
+
+(* headline: for EVERY valid key list and EVERY byte string q *)
+Theorem C04_for_all_valid_K : forall v tbl K req, valid_keys K = true -> small_keys K -> perm_okb tbl = true ->
+  exists P, build v tbl K req = Ok P /\ forall q, bytes_ok q = true ->
+  (forall n, pfx_calls P (mk_prefix q) n = Ok (abs_calls (with_ids P (spec_prefixes K q)) n)) /\
+  prefix_search P q = Ok (with_ids P (spec_prefixes K q)).
+Proof. exact headline_prefix. Qed.
 
 Example C04_nonvacuous : forall v, exists L P, ex_logical v = Ok L /\ wf_for v L P ex_keys.
 Proof. exact ex_wf_for. Qed.
@@ -17,3 +24,4 @@ Example C04_example : match ex_trie V8 with
 Proof. vm_compute. reflexivity. Qed.
 
 Print Assumptions C04_prefix_search.
+Print Assumptions C04_for_all_valid_K.
